@@ -749,9 +749,9 @@ func runFoScenario(d *Driver, id string, sc foScenario, res *Result) (trace []st
 				line = fmt.Sprintf("fo write %s %d %d %d %s", id, t, t0, t1, co.outcome)
 				if co.outcome == "ok" {
 					markOK(k, co.val)
-					if storesBuild[t] && (co.ttl == 0 || co.ttl >= int64(time.Minute)) {
-						freshBuilt[k] = true // the result of a build was stored and stays fresh for the whole scenario
-					}
+					// the result of a build was stored and stays fresh for the whole scenario - until some later store for the key
+					// (a forced rebuild under a short or negative ttl, a stale re-store) leaves an entry that does not
+					freshBuilt[k] = storesBuild[t] && (co.ttl == 0 || co.ttl >= int64(time.Minute))
 					storesBuild[t] = false
 				}
 			case "build":
